@@ -1,0 +1,176 @@
+//go:build verif
+
+// Machine-checked contracts for package bpmn (comment-only; read by /verif/gocv).
+// This file contains no Go declarations; with the build tag off it does not exist
+// for the compiler.
+
+package bpmn
+
+//@ func (*Retry).IsContinue
+//@   prop C08
+//@   ensures result == (old(r.limit) == -1 || old(r.limit) > old(r.attempts))
+//@   ensures r.limit == old(r.limit) && r.attempts == old(r.attempts)
+
+//@ func (*Retry).Reset
+//@   prop C08
+//@   ensures r.limit == retries && r.attempts == old(r.attempts)
+
+//@ func (*Retry).Step
+//@   prop C08
+//@   ensures r.attempts == old(r.attempts) + 1 && r.limit == old(r.limit)
+
+// ---------------------------------------------------------------------------
+// gateway.go
+
+//@ spec func shareHi(k int, n int, m int) int = (k == n-1 ? m : k+1)
+//@ spec func shareGets(k int, n int, m int) bool = k < shareHi(k, n, m) && shareHi(k, n, m) <= m
+
+//@ func distributeFlows
+//@   prop C03 C05
+//@   modifies fresh elems([]int)
+//@   ensures [count] evlen == old(evlen) + len(awaitingActions)
+//@   ensures [to-each-in-order] forall k int :: 0 <= k && k < len(awaitingActions) ==>
+//@             isSend(Δev(k)) && evch(Δev(k)) == awaitingActions[k]
+//@   ensures [share] forall k int :: 0 <= k && k < len(awaitingActions) && shareGets(k, len(awaitingActions), len(sequenceFlows)) ==>
+//@             is(evval(Δev(k)), flowAction) &&
+//@             evval(Δev(k)).(flowAction).sequenceFlows == sequenceFlows[k:shareHi(k, len(awaitingActions), len(sequenceFlows))] &&
+//@             len(evval(Δev(k)).(flowAction).unconditionalFlows) == shareHi(k, len(awaitingActions), len(sequenceFlows)) - k &&
+//@             evval(Δev(k)).(flowAction).response == nil
+//@   ensures [share-unconditional] forall k int, a int :: 0 <= k && k < len(awaitingActions) && shareGets(k, len(awaitingActions), len(sequenceFlows)) &&
+//@             k <= a && a < shareHi(k, len(awaitingActions), len(sequenceFlows)) ==>
+//@             evval(Δev(k)).(flowAction).unconditionalFlows[a - k] == a - k
+//@   ensures [surplus-complete] forall k int :: 0 <= k && k < len(awaitingActions) && !shareGets(k, len(awaitingActions), len(sequenceFlows)) ==>
+//@             is(evval(Δev(k)), completeAction)
+//@   loop 1 range indices
+//@     invariant forall j int :: 0 <= j && j < i ==> indices[j] == j
+//@     invariant preserved("elems([]int)")
+//@   loop 2 range awaitingActions
+//@     invariant evlen == old(evlen) + i
+//@     invariant forall j int :: 0 <= j && j < len(indices) ==> indices[j] == j
+//@     invariant forall k int :: 0 <= k && k < i ==> isSend(Δev(k)) && evch(Δev(k)) == awaitingActions[k]
+//@     invariant forall k int :: 0 <= k && k < i && shareGets(k, len(awaitingActions), len(sequenceFlows)) ==>
+//@             is(evval(Δev(k)), flowAction) &&
+//@             evval(Δev(k)).(flowAction).sequenceFlows == sequenceFlows[k:shareHi(k, len(awaitingActions), len(sequenceFlows))] &&
+//@             evval(Δev(k)).(flowAction).unconditionalFlows == indices[0:shareHi(k, len(awaitingActions), len(sequenceFlows)) - k] &&
+//@             evval(Δev(k)).(flowAction).response == nil
+//@     invariant forall k int :: 0 <= k && k < i && !shareGets(k, len(awaitingActions), len(sequenceFlows)) ==>
+//@             is(evval(Δev(k)), completeAction)
+
+// ---------------------------------------------------------------------------
+// flow_node.go
+
+//@ func allSequenceFlows
+//@   prop C01 C03 C05
+//@   requires forall k int :: 0 <= k && k < len(exclusion) ==> exclusion[k] != nil
+//@   modifies fresh elems([]*SequenceFlow)
+//@   ensures [no-events-without-exclusion] len(exclusion) == 0 ==> evlen == old(evlen)
+//@   ensures [all-when-no-exclusion] len(exclusion) == 0 ==> len(result) == len(*sequenceFlows) &&
+//@             forall i int :: 0 <= i && i < len(result) ==> result[i] == elemptr(*sequenceFlows, i)
+//@   ensures [fresh-result] fresh(base(result))
+//@   loop 1 range *sequenceFlows
+//@     invariant len(exclusion) == 0 ==> len(result) == i && forall j int :: 0 <= j && j < i ==> result[j] == elemptr(*sequenceFlows, j)
+//@     invariant fresh(base(result))
+//@     invariant len(result) <= i
+//@     invariant len(exclusion) == 0 ==> evlen == old(evlen)
+//@     invariant preserved("elems([]*SequenceFlow)")
+//@   loop 2 range exclusion
+//@     invariant len(exclusion) == 0 ==> evlen == old(evlen)
+
+// ---------------------------------------------------------------------------
+// gateway_parallel.go
+
+//@ spec func pgInv(gw *parallelGateway) bool =
+//@   0 <= gw.reportedIncomingFlows && len(gw.awaitingActions) == gw.reportedIncomingFlows &&
+//@   (gw.noOfIncomingFlows >= 1 ==> gw.reportedIncomingFlows < gw.noOfIncomingFlows)
+
+//@ func newParallelGateway
+//@   prop C03
+//@   ensures err == nil && gw != nil && fresh(gw)
+//@   ensures gw.noOfIncomingFlows == len(wr.incoming) && gw.wiring == wr && gw.element == element
+//@   ensures pgInv(gw)
+//@   ensures chancap(gw.mch) == 2*len(wr.incoming) + 1
+
+//@ func (*parallelGateway).flowWhenReady
+//@   prop C03
+//@   requires gw.wiring != nil
+//@   modifies gw.reportedIncomingFlows, gw.awaitingActions, fresh elems([]chan IAction), fresh elems([]*SequenceFlow), fresh elems([]int)
+//@   ensures [not-ready] old(gw.reportedIncomingFlows) != old(gw.noOfIncomingFlows) ==>
+//@             evlen == old(evlen) && gw.reportedIncomingFlows == old(gw.reportedIncomingFlows) &&
+//@             gw.awaitingActions == old(gw.awaitingActions)
+//@   ensures [ready-reset] old(gw.reportedIncomingFlows) == old(gw.noOfIncomingFlows) ==>
+//@             gw.reportedIncomingFlows == 0 && len(gw.awaitingActions) == 0 &&
+//@             evlen == old(evlen) + len(old(gw.awaitingActions))
+//@   ensures [ready-one-action-each] old(gw.reportedIncomingFlows) == old(gw.noOfIncomingFlows) ==>
+//@             forall k int :: 0 <= k && k < len(old(gw.awaitingActions)) ==>
+//@               isSend(Δev(k)) && evch(Δev(k)) == old(gw.awaitingActions[k])
+//@   ensures [ready-each-outgoing-once] old(gw.reportedIncomingFlows) == old(gw.noOfIncomingFlows) ==>
+//@             forall k int :: 0 <= k && k < len(old(gw.awaitingActions)) &&
+//@               shareGets(k, len(old(gw.awaitingActions)), len(gw.wiring.outgoing)) ==>
+//@               is(evval(Δev(k)), flowAction) &&
+//@               len(evval(Δev(k)).(flowAction).sequenceFlows) == shareHi(k, len(old(gw.awaitingActions)), len(gw.wiring.outgoing)) - k &&
+//@               len(evval(Δev(k)).(flowAction).unconditionalFlows) == len(evval(Δev(k)).(flowAction).sequenceFlows)
+//@   ensures [ready-flows-are-the-outgoing] old(gw.reportedIncomingFlows) == old(gw.noOfIncomingFlows) ==>
+//@             forall k int, a int :: 0 <= k && k < len(old(gw.awaitingActions)) &&
+//@               shareGets(k, len(old(gw.awaitingActions)), len(gw.wiring.outgoing)) &&
+//@               k <= a && a < shareHi(k, len(old(gw.awaitingActions)), len(gw.wiring.outgoing)) ==>
+//@                 evval(Δev(k)).(flowAction).sequenceFlows[a - k] == elemptr(gw.wiring.outgoing, a) &&
+//@                 evval(Δev(k)).(flowAction).unconditionalFlows[a - k] == a - k
+//@   ensures [ready-surplus-consumed] old(gw.reportedIncomingFlows) == old(gw.noOfIncomingFlows) ==>
+//@             forall k int :: 0 <= k && k < len(old(gw.awaitingActions)) &&
+//@               !shareGets(k, len(old(gw.awaitingActions)), len(gw.wiring.outgoing)) ==>
+//@               is(evval(Δev(k)), completeAction)
+//@   ensures gw.noOfIncomingFlows == old(gw.noOfIncomingFlows) && gw.wiring == old(gw.wiring) && gw.mch == old(gw.mch)
+
+//@ func (*parallelGateway).run
+//@   prop C03 C07
+//@   requires gw.wiring != nil && pgInv(gw) && gw.noOfIncomingFlows >= 1
+//@   ensures [cancel-trace-then-sender-done] evlen >= old(evlen) + 3 &&
+//@             isRecv(ev(evlen - 3)) &&
+//@             isTrace(ev(evlen - 2)) && evch(ev(evlen - 2)) == ref(gw.wiring.tracer) && is(evval(ev(evlen - 2)), CancellationFlowNodeTrace) &&
+//@             isCall(ev(evlen - 1)) && evch(ev(evlen - 1)) == code("tracing|ISenderHandle.Done")
+//@   loop 1 for
+//@     invariant gw.wiring != nil && pgInv(gw) && gw.noOfIncomingFlows >= 1
+//@     invariant gw.noOfIncomingFlows == old(gw.noOfIncomingFlows) && gw.wiring == old(gw.wiring) && gw.mch == old(gw.mch)
+//@     iter ensures [arrival-below-threshold-parks]
+//@       isRecv(Δev(0)) && evch(Δev(0)) == gw.mch && is(evval(Δev(0)), nextActionMessage) &&
+//@       old(gw.reportedIncomingFlows) + 1 < gw.noOfIncomingFlows ==>
+//@         gw.reportedIncomingFlows == old(gw.reportedIncomingFlows) + 1 &&
+//@         gw.awaitingActions[len(gw.awaitingActions) - 1] == evval(Δev(0)).(nextActionMessage).response &&
+//@         (forall k int :: 0 <= k && k < old(len(gw.awaitingActions)) ==> gw.awaitingActions[k] == old(gw.awaitingActions[k])) &&
+//@         evlen == old(evlen) + 2 && isTrace(Δev(1)) && is(evval(Δev(1)), IncomingFlowProcessedTrace)
+//@     iter ensures [nth-arrival-releases-all]
+//@       isRecv(Δev(0)) && evch(Δev(0)) == gw.mch && is(evval(Δev(0)), nextActionMessage) &&
+//@       old(gw.reportedIncomingFlows) + 1 == gw.noOfIncomingFlows ==>
+//@         gw.reportedIncomingFlows == 0 && len(gw.awaitingActions) == 0 &&
+//@         evlen == old(evlen) + 1 + gw.noOfIncomingFlows + 1 &&
+//@         (forall k int :: 0 <= k && k < gw.noOfIncomingFlows - 1 ==> isSend(Δev(1 + k)) && evch(Δev(1 + k)) == old(gw.awaitingActions[k])) &&
+//@         isSend(Δev(gw.noOfIncomingFlows)) && evch(Δev(gw.noOfIncomingFlows)) == evval(Δev(0)).(nextActionMessage).response &&
+//@         isTrace(Δev(gw.noOfIncomingFlows + 1)) && is(evval(Δev(gw.noOfIncomingFlows + 1)), IncomingFlowProcessedTrace)
+//@     iter ensures [release-one-token-per-outgoing]
+//@       isRecv(Δev(0)) && evch(Δev(0)) == gw.mch && is(evval(Δev(0)), nextActionMessage) &&
+//@       old(gw.reportedIncomingFlows) + 1 == gw.noOfIncomingFlows ==>
+//@         forall k int, a int :: 0 <= k && k < gw.noOfIncomingFlows &&
+//@           shareGets(k, gw.noOfIncomingFlows, len(gw.wiring.outgoing)) &&
+//@           k <= a && a < shareHi(k, gw.noOfIncomingFlows, len(gw.wiring.outgoing)) ==>
+//@             is(evval(Δev(1 + k)), flowAction) &&
+//@             len(evval(Δev(1 + k)).(flowAction).sequenceFlows) == shareHi(k, gw.noOfIncomingFlows, len(gw.wiring.outgoing)) - k &&
+//@             evval(Δev(1 + k)).(flowAction).sequenceFlows[a - k] == elemptr(gw.wiring.outgoing, a) &&
+//@             evval(Δev(1 + k)).(flowAction).unconditionalFlows[a - k] == a - k
+//@     iter ensures [release-surplus-consumed]
+//@       isRecv(Δev(0)) && evch(Δev(0)) == gw.mch && is(evval(Δev(0)), nextActionMessage) &&
+//@       old(gw.reportedIncomingFlows) + 1 == gw.noOfIncomingFlows ==>
+//@         forall k int :: 0 <= k && k < gw.noOfIncomingFlows && !shareGets(k, gw.noOfIncomingFlows, len(gw.wiring.outgoing)) ==>
+//@             is(evval(Δev(1 + k)), completeAction)
+//@     iter ensures [other-messages-ignored]
+//@       isRecv(Δev(0)) && evch(Δev(0)) == gw.mch && !is(evval(Δev(0)), nextActionMessage) ==>
+//@         evlen == old(evlen) + 1 && gw.reportedIncomingFlows == old(gw.reportedIncomingFlows) && gw.awaitingActions == old(gw.awaitingActions)
+
+//@ func (*parallelGateway).NextAction
+//@   prop C03
+//@   requires gw.wiring != nil
+//@   ensures [fresh-reply-channel] fresh(result) && result != nil
+//@   ensures [one-request-sent-last] isSend(ev(evlen - 1)) && evch(ev(evlen - 1)) == gw.mch &&
+//@             is(evval(ev(evlen - 1)), nextActionMessage) &&
+//@             evval(ev(evlen - 1)).(nextActionMessage).response == result &&
+//@             evval(ev(evlen - 1)).(nextActionMessage).flow == flow
+//@   ensures [at-most-one-run-spawned] forall a int, b int :: old(evlen) <= a && a < b && b < evlen && isSpawn(ev(a)) ==> !isSpawn(ev(b))
